@@ -37,7 +37,7 @@ type Verifier struct {
 	infos        map[string]*types.Info // by package path (repository packages)
 }
 
-var repoPkgs = []string{".", "./kv", "./kv/crdt", "./kv/internal/crdt", "./sqlite", "./internal", "./writetime"}
+var repoPkgs = []string{".", "./kv", "./kv/crdt", "./kv/internal/crdt", "./sqlite", "./internal", "./writetime", "./sql/parse"}
 
 func loadVerifier(repo, verifDir string) (*Verifier, error) {
 	t0 := time.Now()
@@ -480,6 +480,16 @@ func (v *Verifier) verifyFunc(key string, timeout int, tier string) *FuncReport 
 		}
 		o := x.ob("cover", "entry", "precondition satisfiable", nil)
 		s.cover(o)
+		if x.con != nil && x.con.ReturnsClosure {
+			// the contract IS the body's shape: callers take the closure it builds
+			_, why := closureCtor(x, nil, fn, make([]Value, len(fn.Params)))
+			so := x.ob("closure", "shape", "the body only builds and returns one closure over its parameters"+why, nil)
+			if why == "" {
+				s.check(so, "true")
+			} else {
+				s.check(so, "false")
+			}
+		}
 		x.run(s, fn.Blocks[0], nil, nil)
 	}()
 	x.wg.Wait()
